@@ -5,9 +5,9 @@ from simv.model.schema import (
 )
 from simv.gen.values import gen_literal
 
-FIELD_NAMES = ["a", "b", "c", "d", "e", "f", "g", "h", "id", "name", "t0", "x", "y"]
+FIELD_NAMES = ["a", "b", "c", "d", "e", "f", "g", "h", "id", "name", "t0", "x", "y", "_x"]
 ARG_NAMES = ["p", "q", "r", "id", "a"]
-ENUM_VALUE_NAMES = ["A", "B", "C", "D", "RED", "a"]
+ENUM_VALUE_NAMES = ["A", "B", "C", "D", "RED", "a", "True", "None"]  # legal names that spell Python constants
 
 DEFAULT_KNOBS = dict(
     max_objects=5, max_interfaces=2, max_unions=2, max_enums=2, max_inputs=3, max_custom_scalars=2,
